@@ -1,7 +1,10 @@
 /-
 C10 — The mock server's instance store is a faithful keyed map with CIM status codes.
 ONLY property theorems, non-vacuity examples and witnesses live here; helper lemmas are in
-Proofs/Lemmas/Store.lean.  Model: Pywbem/Model/Store.lean (mirrors the code after the `fix:` commits),
+Proofs/Lemmas/Store.lean, StoreEq.lean, StoreClient.lean, StoreLaws.lean, StoreAlias.lean, StoreSubclass.lean.
+Models (all mirror the code after the `fix:` commits): Pywbem/Model/Store.lean (the six operations from the request
+to the dict), StoreClient.lean (argument handling of the public methods), StoreEq.lean (pywbem's path equality),
+StoreSubclass.lean (the downward subclass walk), StoreAlias.lean (object identities and copies);
 reference map: Pywbem/Model/StoreSpec.lean.
 
 Statement of the refinement (proved here under `TameRun`: no association classes and arbitrary requests, or a
